@@ -168,13 +168,16 @@ def run_series(case):
         if err is not None:
             events.append(ev("blocking/weight-rescaling-error", bool(e2 is not None and abs(e2 - err) <= 1e-9 * err),
                              key=key + "/rescale-error", a=err, b=e2))
-        sh = float(rng.normal() * escale)
+        sh = float(rng.normal() * escale) * float(rng.choice([1.0, 1.0, 1e3, 1e6]))   # also offsets far larger than the spread
         (m3, e3), _ = call_blocking(w, e + sh)
         events.append(judge("blocking/shift-mean", abs(m3 - (mean + sh)) / max(escale, abs(sh)), 1e-11, key + "/shift-mean"))
         if err is not None:
             spread = max(1e-300, float(np.std(e)))
-            events.append(ev("blocking/shift-error", bool(e3 is not None and abs(e3 - err) <= 1e-7 * max(err, 1e-9 * (abs(sh) + escale))),
-                             key=key + "/shift-error", a=err, b=e3, shift=sh))
+            # the error of a two-pass (centred) variance changes by ~eps*|shift|/spread relatively when a constant is added
+            spread_ = max(1e-300, float(np.std(e)))
+            rel_tol = 1e-9 + 64 * np.finfo(float).eps * (abs(sh) + escale) / spread_ * max(1.0, np.sqrt(n))
+            events.append(ev("blocking/shift-error", bool(e3 is not None and abs(e3 - err) <= rel_tol * err),
+                             key=key + "/shift-error", a=err, b=e3, shift=sh, rel_tol=rel_tol))
     # equilibration cut
     k = int(rng.integers(0, max(1, n // 3)))
     (m4, e4), _ = call_blocking(w, e, neql=k)
